@@ -449,8 +449,21 @@ pub fn jobs(tier: Tier, full: bool) -> Vec<Job> {
     let sigma: Vec<&'static str> = if full { sigma_full() } else { sigma_full().into_iter().filter(|l| !is_c02_excluded(l)).collect() };
     let mut v = vec![];
     let d0 = tier.pick(3, 4);
+    // R-tree does not model a sink that accepts declarative shadow roots (the template then never enters
+    // the tree): that configuration is explored for the reference-free properties only
+    let for_this = |c: &TreeCfg| full || !c.shadow_answer;
     for (n, c) in doc_cfgs(tier) {
-        v.push(Job { name: format!("J0/{n}"), cfg: c, prefix: vec![], sigma: sigma.clone(), depth: d0 });
+        if for_this(&c) {
+            v.push(Job { name: format!("J0/{n}"), cfg: c, prefix: vec![], sigma: sigma.clone(), depth: d0 });
+        }
+    }
+    if tier == Tier::Quick {
+        // the configurations the thorough tier explores to full depth, one level shallower
+        for (n, c) in doc_cfgs(Tier::Thorough).into_iter().skip(2) {
+            if for_this(&c) {
+                v.push(Job { name: format!("J0/{n}"), cfg: c, prefix: vec![], sigma: sigma.clone(), depth: d0 - 1 });
+            }
+        }
     }
     for w in mode_witnesses() {
         if !full && w.iter().any(|l| is_c02_excluded(l)) {
